@@ -93,7 +93,7 @@ def build(cfgname, force=False, cov=False):
     sh(["objcopy", "--rename-section", ".bss=nsyncbss", "--redefine-syms=" + os.path.join(SIM, "plat", "redefine-syms.txt"), allo])
     link = ["g++", "-no-pie", "-o", exe] + rtobjs + [hobj, allo]
     if cov:
-        link += ["--coverage"]
+        link += ["--coverage", "-Wl,--undefined=__gcov_dump"]
     sh(link)
     open(stamp, "w").write(hv)
     return exe
